@@ -19,7 +19,13 @@ fn gen_scalar(u: &mut Choices) -> V {
     match u.weighted(&[6, 3, 2, 1, 1]) {
         0 => V::Str(STRINGS[u.below(STRINGS.len())].to_string()),
         1 => V::Int(*u.pick(&[0i64, 1, -1, 443, 10, i64::MAX, i64::MIN, 1234567890123])),
-        2 => V::Float(*u.pick(&[0.5f64, 1.5, 2.0, 1e308, 5e-324, -1.5, 1e-7, 10.25, -0.0, 123456.789, 1e22, 2.5e16, 1.5e20, -3e21])),
+        2 if u.chance(1, 3) => {
+            // full-precision floats: a 53-bit mantissa over a power of ten (16-17 significant digits)
+            let m = ((u.below(1 << 27) as u64) << 26) | u.below(1 << 26) as u64;
+            let x = m as f64 / 10f64.powi(u.below(24) as i32 - 4);
+            V::Float(if u.chance(1, 4) { -x } else { x })
+        }
+        2 => V::Float(*u.pick(&[0.5f64, 1.5, 2.0, 1e308, 5e-324, -1.5, 1e-7, 10.25, -0.0, 123456.789, 1e22, 2.5e16, 1.5e20, -3e21, 0.18731771569502986, 433.61274493177757, 9.701548970340049, 0.30000000000000004, 1.7976931348623157e308, 2.2250738585072014e-308, -3e25, 6.02214076e23])),
         3 => V::Bool(u.chance(1, 2)),
         _ => V::Null,
     }
